@@ -71,7 +71,7 @@ def values_of(t, form):
         else:
             out = [("P", a, 0) for a in IP_B if a]
     elif t == "K":
-        out = [("K", b"b0"), ("K", b"b1")] + ([("K", None)] if form == "v" else [])
+        out = [("K", b"b0"), ("K", b"b1"), ("K", b"d0")] + ([("K", None)] if form == "v" else [])
     elif t == "A":
         out = [("A", b"a0", ACL0), ("A", b"a1", ACL_BAD)] if form == "l" else []
     return out
